@@ -581,6 +581,8 @@ def run(ctx: Ctx) -> None:
     rule_index_keys_stay(ctx)
     rule_reg_create(ctx)
     rule_validate_shape(ctx)
+    from .c13 import rule_unwrap_order
+    rule_unwrap_order(ctx)   # unwrap() decides the register every expanded gate sits on
     from .c13 import rule_rewrite_order
     rule_rewrite_order(ctx)
     from ..rules import order as _order
